@@ -541,10 +541,18 @@ fn from_be4(b: [u8; 4]) -> u32 { ((b[0] as u32) << 24) | ((b[1] as u32) << 16) |
 fn rgba_arr(c: Srgba<u8>) -> [u8; 4] { [c.color.red, c.color.green, c.color.blue, c.alpha] }
 fn rgb_arr(c: Srgb<u8>) -> [u8; 3] { [c.red, c.green, c.blue] }
 
+/// a user-defined component order over plain bytes that keeps them as they are
+struct KeepBytes;
+impl<const N: usize> ComponentOrder<[u8; N], [u8; N]> for KeepBytes {
+    fn pack(color: [u8; N]) -> [u8; N] { color }
+    fn unpack(packed: [u8; N]) -> [u8; N] { packed }
+}
+
 /// pack the colour c and unpack the packed value c through every API form of order O
 fn pack_event<O>(name: &str, c: [u8; 4]) -> Value
 where
-    O: ComponentOrder<Srgba<u8>, [u8; 4]> + ComponentOrder<Srgba<u8>, u32> + ComponentOrder<Srgba<u16>, [u16; 4]>,
+    O: ComponentOrder<Srgba<u8>, [u8; 4]> + ComponentOrder<Srgba<u8>, u32> + ComponentOrder<Srgba<u16>, [u16; 4]>
+        + ComponentOrder<Srgba<u32>, [u32; 4]>,
 {
     let r = catch(|| {
         let rgba = Srgba::<u8>::new(c[0], c[1], c[2], c[3]);
@@ -569,11 +577,29 @@ where
         let arr16 = Packed::<O, [u16; 4]>::pack(Srgba::<u16>::new(c16[0], c16[1], c16[2], c16[3])).color;
         let u: Srgba<u16> = Packed::<O, [u16; 4]> { color: c16, channel_order: Default::default() }.unpack();
         let un16 = [u.color.red, u.color.green, u.color.blue, u.alpha];
+        // 32-bit channels in an array: positions only
+        let c32: [u32; 4] = [c16[0] as u32 + 65536, c16[1] as u32 + 2 * 65536, c16[2] as u32 + 3 * 65536, c16[3] as u32 + 4 * 65536];
+        let u: Srgba<u32> = Packed::<O, [u32; 4]> { color: c32, channel_order: Default::default() }.unpack();
+        let un32 = [u.color.red, u.color.green, u.color.blue, u.alpha];
+        // the integer forms u8, u64 and u128 exist for any order over 1, 8 and 16 bytes (none is built in): a user-defined
+        // order that keeps the bytes as they are shows the byte positions of the integer (first channel most significant)
+        let b8: [u8; 8] = core::array::from_fn(|i| c[i % 4].wrapping_add((17 * i) as u8));
+        let b16: [u8; 16] = core::array::from_fn(|i| c[i % 4].wrapping_add((29 * i) as u8));
+        let w1 = [<KeepBytes as ComponentOrder<[u8; 1], u8>>::pack([c[0]])];
+        let w1u = <KeepBytes as ComponentOrder<[u8; 1], u8>>::unpack(c[1]);
+        let w8 = <KeepBytes as ComponentOrder<[u8; 8], u64>>::pack(b8).to_be_bytes();
+        let w8u = <KeepBytes as ComponentOrder<[u8; 8], u64>>::unpack(u64::from_be_bytes(b8));
+        let w16 = <KeepBytes as ComponentOrder<[u8; 16], u128>>::pack(b16).to_be_bytes();
+        let w16u = <KeepBytes as ComponentOrder<[u8; 16], u128>>::unpack(u128::from_be_bytes(b16));
+        let arr32 = Packed::<O, [u32; 4]>::pack(Srgba::<u32>::new(c32[0], c32[1], c32[2], c32[3])).color;
         json!({"ev": "pack", "order": name, "c": c, "packs": packs, "packs_rgb": packs_rgb, "unpacks": unpacks,
-               "unpacks_rgb": unpacks_rgb, "c16": c16, "arr16": arr16, "un16": un16, "panic": 0})
+               "unpacks_rgb": unpacks_rgb, "c16": c16, "arr16": arr16, "un16": un16,
+               "c32": c32, "arr32": arr32, "un32": un32,
+               "wide_in": [vec![c[0]], vec![c[1]], b8.to_vec(), b8.to_vec(), b16.to_vec(), b16.to_vec()],
+               "wide_out": [w1.to_vec(), w1u.to_vec(), w8.to_vec(), w8u.to_vec(), w16.to_vec(), w16u.to_vec()], "panic": 0})
     });
     r.unwrap_or_else(|_| json!({"ev": "pack", "order": name, "c": c, "packs": [], "packs_rgb": [], "unpacks": [],
-                                "unpacks_rgb": [], "c16": [], "arr16": [], "un16": [], "panic": 1}))
+                                "unpacks_rgb": [], "c16": [], "arr16": [], "un16": [], "c32": [], "arr32": [], "un32": [], "wide_in": [], "wide_out": [], "panic": 1}))
 }
 
 fn pack_by_name(name: &str, c: [u8; 4]) -> Value {
@@ -634,7 +660,8 @@ fn packdef_event(c: [u8; 4]) -> Value {
 /// pos[k] (1-based, 1 = most significant byte) is the position of channel k of (r, g, b, a).
 fn pack_sweep<O>(rec: &mut Rec, name: &str, pos: &[usize], full: bool)
 where
-    O: ComponentOrder<Srgba<u8>, [u8; 4]> + ComponentOrder<Srgba<u8>, u32> + ComponentOrder<Srgba<u16>, [u16; 4]>,
+    O: ComponentOrder<Srgba<u8>, [u8; 4]> + ComponentOrder<Srgba<u8>, u32> + ComponentOrder<Srgba<u16>, [u16; 4]>
+        + ComponentOrder<Srgba<u32>, [u32; 4]>,
 {
     let blocks: u64 = 256;
     let per: u64 = if full { (1u64 << 32) / blocks } else { (1u64 << 24) / blocks };
